@@ -3262,6 +3262,7 @@ impl Interpreter {
                 BytecodeVM::from_saved_state(saved_state, this_value.clone(), vm_guard, &self.heap);
 
             // Check if we need to throw an exception (generator.throw())
+            let return_value = gen_state.borrow_mut().return_value.take();
             let throw_value = gen_state.borrow_mut().throw_value.take();
             if let Some(exception) = throw_value {
                 // Inject the exception - if there's a handler, it will jump to catch
@@ -3274,6 +3275,23 @@ impl Interpreter {
                     return Err(JsError::ThrownValue { guarded });
                 }
                 // Handler found - continue to run the VM which will execute the catch block
+            } else if let Some(value) = return_value {
+                // generator.return(value): a return completion at the suspended yield.
+                // With an enclosing finally block the VM continues there (and may yield
+                // again); otherwise the generator is done.
+                match vm.inject_return(self, value) {
+                    Ok(Some(done)) => {
+                        gen_state.borrow_mut().status = GeneratorStatus::Completed;
+                        self.env = saved_env;
+                        return Ok(builtins::create_generator_result(self, done.value, true));
+                    }
+                    Ok(None) => {}
+                    Err(e) => {
+                        gen_state.borrow_mut().status = GeneratorStatus::Completed;
+                        self.env = saved_env;
+                        return Err(e);
+                    }
+                }
             } else {
                 // Normal resume - set the sent value in the yield result register
                 if let Some(resume_reg) = yield_result_register {
@@ -4517,6 +4535,7 @@ impl Interpreter {
             delegated_iterator: None, // For yield* delegation
             is_async: false,          // Regular generator, not async
             throw_value: None,        // For generator.throw()
+            return_value: None,
         };
 
         // Create the generator object with a guard
@@ -4560,6 +4579,7 @@ impl Interpreter {
             delegated_iterator: None, // For yield* delegation
             is_async: true,           // Async generator - next() returns Promise
             throw_value: None,        // For generator.throw()
+            return_value: None,
         };
 
         // Create the generator object with a guard
